@@ -883,18 +883,25 @@ def _keys_worker(chunk):
 
 
 def precompute_keys(cases):
-    """run every key session once (worker pool) and remember the verdicts in `_PRE`"""
+    """run every key session once (worker pool) and remember the verdicts in `_PRE`
+    (sessions already run in this process -- the enumerated part under seed escalation -- are not repeated)"""
     procs = int(os.environ.get("VERIF_PROCS", "0")) or min(16, os.cpu_count() or 4)
-    if len(cases) < 32 or procs == 1:
-        res = _keys_worker(cases)
+    for c in cases:
+        c["tkey"] = case_key(c)
+    todo, seen = [], set()
+    for c in cases:
+        if c["tkey"] not in _PRE and c["tkey"] not in seen:
+            seen.add(c["tkey"])
+            todo.append(c)
+    if len(todo) < 32 or procs == 1:
+        res = _keys_worker(todo)
     else:
         import multiprocessing as mp
-        n = max(1, min(len(cases) // (procs * 4), 400))
-        chunks = [cases[i:i + n] for i in range(0, len(cases), n)]
+        n = max(1, min(len(todo) // (procs * 4), 400))
+        chunks = [todo[i:i + n] for i in range(0, len(todo), n)]
         with mp.get_context("fork").Pool(procs) as pool:
             res = [t for r in pool.map(_keys_worker, chunks) for t in r]
-    for c, r in zip(cases, res):
-        c["tkey"] = case_key(c)
+    for c, r in zip(todo, res):
         _PRE[c["tkey"]] = r
     return cases
 
